@@ -49,3 +49,38 @@ def viewOf (m : Map) (order : List Nat) : View :=
   { iter := order, mem := fun k => (m.find k).isSome, len := m.len }
 
 end Griddle.SetAlg
+
+/-! ### single-set operations (`src/set.rs`): `HashSet<T>` is `HashMap<T, ()>`
+
+Each operation is the map operation `set.rs` forwards to, on an entry whose value is the unit (`v = 0`, `vid = 0`:
+a `()` is no object).  What the set keeps track of beyond membership is WHICH object stands for a value: `insert`
+of a value that is already there keeps the stored one (and drops the argument), `replace` exchanges it,
+`get_or_insert*` never do. -/
+namespace Griddle.SetOps
+
+def unitE (k kid : Nat) : Entry := ⟨k, kid, 0, 0⟩
+
+/-- `insert(value)` = `self.map.insert(value, ()).is_none()` -/
+def insert (c : Cfg) (m : Map) (k kid : Nat) (o : Orc) : Except Fault (Map × Out) := Map.insert c m (unitE k kid) o
+
+/-- `replace(value)`: `match self.map.entry(value) { Occupied(o) => Some(o.replace_key()), Vacant(v) => { v.insert(()); None } }` -/
+def replace (c : Cfg) (m : Map) (k kid : Nat) (o : Orc) : Except Fault (Map × Out) :=
+  match m.find k with
+  | some _ => Map.entryChain c false 1 m k kid [.occReplaceKey kid] o
+  | none => Map.entryChain c false 1 m k kid [.vacInsert false kid 0 0 0] o
+
+/-- `get_or_insert(value)` = `raw_entry_mut().from_key(&value).or_insert(value, ()).0`; `lzy`: `get_or_insert_with` /
+    `get_or_insert_owned`, where the object only comes into being if the value is absent -/
+def getOrInsert (c : Cfg) (m : Map) (k kid : Nat) (lzy : Bool) (o : Orc) : Except Fault (Map × Out) :=
+  Map.entryChain c true 1 m k 0 [.orInsert lzy kid 0 0 0] o
+
+/-- `remove(&value)` = `self.map.remove(value).is_some()`, `take(&value)` = the key of `remove_entry` -/
+def remove (m : Map) (k : Nat) (o : Orc) : Except Fault (Map × Out) := Map.removeEntry m k o
+
+/-- `get(&value)` / `contains(&value)` -/
+def get (m : Map) (k : Nat) : Out := Map.get m k
+
+/-- the object that stands for value `k`, if it is in the set -/
+def repr (m : Map) (k : Nat) : Option Nat := (m.find k).map (·.2.kid)
+
+end Griddle.SetOps
